@@ -117,6 +117,29 @@ func encScanSGR(p []byte) (stream []int, text []byte, rawctl int) {
 var encTSOK = func(field string) bool { return strings.Contains(field, encTS.UTC().Format("15:04:05")) }
 
 var encCallerRe = regexp.MustCompile(`^(.*) ([^=\s]*):(\d+) (\S+)$`)
+var encCallerTailRe = regexp.MustCompile(`^(.*):(\d+) (\S+)$`)
+
+// encColorCaller finds the caller at the end of the first line: " file:line func".  C06 fixes no
+// quoting for it, so the file is looked for as the hardened file name of the call site itself or as
+// its Go-quoted form (whatever characters it has - blanks, quotes, '='); only when neither is there
+// the generic shape " <no blanks>:<digits> <func>" is taken (and the file then compared as found).
+func encColorCaller(cur string, site encSite) (found bool, rest, file string, line int, fn string) {
+	if m := encCallerTailRe.FindStringSubmatch(cur); m != nil {
+		for _, f := range encSafetyFiles(site.file) {
+			for _, shown := range []string{f, strconv.Quote(f)} {
+				if m[1] == shown || strings.HasSuffix(m[1], " "+shown) {
+					ln, _ := strconv.Atoi(m[2])
+					return true, strings.TrimSuffix(strings.TrimSuffix(m[1], shown), " "), f, ln, m[3]
+				}
+			}
+		}
+	}
+	if mm := encCallerRe.FindStringSubmatch(" " + cur); mm != nil {
+		ln, _ := strconv.Atoi(mm[3])
+		return true, strings.TrimPrefix(mm[1], " "), mm[2], ln, mm[4]
+	}
+	return false, cur, "", 0, ""
+}
 
 func encObsColor(r *encRun, payload []byte, site encSite) map[string]any {
 	stream, text, rawctl := encScanSGR(payload)
@@ -135,7 +158,7 @@ func encObsColor(r *encRun, payload []byte, site encSite) map[string]any {
 	walk(r.c.Attrs)
 	o := map[string]any{"stream": stream, "rawctl": rawctl, "parsed": false, "ts": false, "hasname": false, "namert": false,
 		"tagw": 0, "tagok": false, "firstrt": false, "lenb": 0, "lenr": 0, "padb": -1, "padr": -1,
-		"pairs": []map[string]any{}, "hascaller": false, "callerok": false, "nrest": 0, "restrt": false, "indent": false,
+		"pairs": []map[string]any{}, "hascaller": false, "callerok": false, "cfilert": false, "nrest": 0, "restrt": false, "indent": false,
 		"endnl": strings.HasSuffix(string(text), "\n")}
 	s := string(text)
 	if !strings.HasSuffix(s, "\n") {
@@ -199,11 +222,10 @@ func encObsColor(r *encRun, payload []byte, site encSite) map[string]any {
 	}
 	o["padb"], o["padr"] = len(mFirst)+pad, utf8.RuneCountInString(mFirst)+pad
 	// 5. caller at the end: " file:line func"
-	if mm := encCallerRe.FindStringSubmatch(" " + cur); mm != nil {
-		ln, _ := strconv.Atoi(mm[3])
+	if found, rest, file, ln, fn := encColorCaller(cur, site); found {
 		o["hascaller"] = true
-		o["callerok"] = encCallerOK(site, mm[2], ln, mm[4])
-		cur = strings.TrimPrefix(mm[1], " ")
+		o["callerok"], o["cfilert"] = encCallerOK(site, file, ln, fn)
+		cur = rest
 	}
 	// 6. attributes
 	if ps, ok := encParseLogfmt(cur, false); ok {
